@@ -153,6 +153,13 @@ def gen_cases(P, spec):
             for t in ("", "a", "~", " "):
                 if t not in seen:
                     cases.append([mod, cn, r.name, t])
+            # one LONG sentence for some rules (more than 256 characters: hundreds of partial matches alive)
+            if spec.get("long") and rng.random() < spec["long"]:
+                for _ in range(3):
+                    s = gen.derive(rng, g, ["ref", lab], 14, long_rep=262)
+                    if s is not None and 256 < len(s) <= 700:
+                        cases.append([mod, cn, r.name, s])
+                        break
     return cases
 
 
@@ -200,7 +207,8 @@ def behaviour(a):
         bymod.setdefault(m, []).append(c)
 
     def one(mod):
-        job = {"import": [mod], "gen": {"classes": [[mod, c] for c in bymod[mod]], "seed": a.seed, "per_rule": per_rule, "maxlen": 60}}
+        job = {"import": [mod], "gen": {"classes": [[mod, c] for c in bymod[mod]], "seed": a.seed, "per_rule": per_rule, "maxlen": 60,
+                                       "long": 0.02 if a.tier == "quick" else 0.3}}
         r = child(job)
         if "__error__" in r:
             return mod, None, r["__error__"]
